@@ -61,7 +61,10 @@ ASSUMPTIONS = ["tolerance 1e-6 p.u. / 1e-6 degree (doc/gridequivalent/gridequiva
                "LoadflowNotConverged inside get_equivalent is a legal outcome (skipped); non-convergence of the power flow on the "
                "returned equivalent is a failure",
                "the power flow on the equivalent starts from the DC initialisation (runpp default with calculate_voltage_angles), "
-               "not from the results stored in the returned net"]
+               "not from the results stored in the returned net; if that solution differs, a flat start that reproduces the "
+               "original operating point is accepted (label other-solution-from-dc-init): the property does not fix the start",
+               "a deviation within 100x tolerance x max(1, sn_mva / MVA scale of the lowest voltage level) that disappears when "
+               "get_equivalent runs its power flows at tight tolerance (runpp_fct) is attributed to the solver tolerance"]
 TECHNIQUE = "property-based testing: generated networks + generated internal/boundary split, metamorphic oracle (equivalent vs. original power flow) + snapshot invariant"
 
 LEVEL_SETS_1 = [[110.0], [110.0], [20.0], [10.0], [220.0]]
@@ -502,6 +505,18 @@ def check(case):
             if not missing2 and worst2[0] <= 1.0:
                 res.label("tolerance-limited")
                 worst = worst2
+        except Exception:
+            pass
+    if worst[0] > 1.0:
+        # the equivalent may have several power flow solutions (large compensating shunts and injections of the equivalent
+        # elements): the property asks for "a power flow", so a flat start may show the original operating point as well
+        try:
+            with silence():
+                pp.runpp(net_eq, calculate_voltage_angles=True, tolerance_mva=pf_tol(sn), max_iteration=40, init="flat")
+            missing3, worst3 = _compare(net, net_eq, reg)
+            if not missing3 and worst3[0] <= 1.0:
+                res.label("other-solution-from-dc-init")
+                worst = worst3
         except Exception:
             pass
     if worst[0] > 1.0:
